@@ -33,6 +33,18 @@ def iterXml (s : Str) : List Tok := iterXmlWith Gen.XML_SPE s
 /-- `iter_text` -/
 def iterText (s : Str) : List Tok := [{ str := s, pos := 0 }]
 
+/-- `str.replace('$$', '$')` -/
+def undoubleDollar : Str → Str
+  | 36 :: 36 :: r => 36 :: undoubleDollar r
+  | c :: r => c :: undoubleDollar r
+  | [] => []
+
+/-- `'${' in s` -/
+def hasInterp : Str → Bool
+  | [] => false
+  | 36 :: 123 :: _ => true
+  | _ :: r => hasInterp r
+
 namespace Tok
 
 /-- `token[a:b]` for non-negative `a`, `b` (`b = none` ↦ to the end) -/
